@@ -367,6 +367,11 @@ func (d *Decls) preamble(body string) string {
 	}
 	sort.Strings(ss)
 	for _, s := range ss {
+		if s == "Time" {
+			// instants are mathematical integers (nanoseconds); Add/After/Before are arithmetic, Unix/UnixNano stay uninterpreted
+			b.WriteString("(define-sort Time () Int)\n")
+			continue
+		}
 		fmt.Fprintf(&b, "(declare-sort %s 0)\n", s)
 	}
 	for _, dt := range d.datatypes {
